@@ -55,6 +55,11 @@ def gen_universe(rng, max_classes=5, max_objs=5, mixins=True, evs=None):
         lines.append(f'class {cid} bases=- names={EVS[0]} kw=-')
         mapping_of.append({EVS[0]: EVS[0]})
         handler_classes.append(cid)
+    if rng.random() < 0.3:
+        # handler classes whose instances are value objects (compare equal; possibly unhashable)
+        for cid in handler_classes:
+            if rng.random() < 0.6:
+                lines.append(f'trait {cid} ' + rng.choice(['eq', 'eq', 'unhash']))
     objs = {}
     for oid in range(rng.randint(1, max_objs)):
         c = rng.choice(handler_classes)
